@@ -9,6 +9,8 @@ for d in sorted(glob.glob('/verif/seeded/*')):
     ch = m.get('checks', {}); ct = m.get('checks_thorough', {})
     res = []
     for k, v in ch.items():
+        if not isinstance(v, dict):
+            continue
         sig = ', '.join(v.get('signatures', [])[:2]) or 'race detector report'
         res.append(f"{k} quick: " + (f"caught (`{sig[:90]}`)" if v.get('exit') == 1 else "missed"))
     for k, v in ct.items():
